@@ -90,8 +90,8 @@ impl TreeGen {
         let mut v: Vec<PG> = vec![];
         for _ in 0..n {
             if self.conde && depth > 0 && r.chance(1, 6) {
-                let k = 2 + r.below(2);
-                let cs = (0..k).map(|_| { let m = 1 + r.below(2); self.conj(r, m, depth - 1) }).collect();
+                let k = if r.chance(1, 6) { 1 } else { 2 + r.below(2) };
+                let cs = (0..k).map(|_| { let m = if r.chance(1, 12) { 0 } else { 1 + r.below(2) }; self.conj(r, m, depth - 1) }).collect();
                 v.push(PG::Conde(cs));
             } else if depth > 0 && r.chance(1, 10) {
                 let m = 1 + r.below(2);
@@ -243,7 +243,7 @@ fn universe_for(body: &[PG]) -> Vec<T> {
     fn collect(gs: &[PG], sides: &mut Vec<T>) {
         for g in gs {
             match g {
-                PG::Neq(a, b) | PG::Eq(a, b) => {
+                PG::Neq(a, b) => {
                     sides.push(a.clone());
                     sides.push(b.clone());
                 }
@@ -260,12 +260,12 @@ fn universe_for(body: &[PG]) -> Vec<T> {
         if matches!(s, T::Var(_) | T::Any(_)) {
             continue;
         }
-        for c in [T::Num(2), T::Num(1), T::Num(3)] {
+        for c in [T::Num(2), T::Num(1)] {
             let g = s.subst(&|x| match x {
                 T::Var(_) | T::Any(_) => Some(c.clone()),
                 _ => None,
             });
-            if !u.contains(&g) && extra < 5 {
+            if !u.contains(&g) && extra < 4 && g.depth() <= 4 {
                 u.push(g);
                 extra += 1;
             }
@@ -276,7 +276,8 @@ fn universe_for(body: &[PG]) -> Vec<T> {
 
 /// all tuples of universe values for the query variables that extend to a solution
 pub fn solutions(p: &Prog) -> Vec<Vec<T>> {
-    let u = universe_for(&p.body);
+    // (for more than two query variables the enumeration of u^nq tuples x paths stays with the fixed universe)
+    let u = if p.nq <= 2 { universe_for(&p.body) } else { universe8() };
     UNIVERSE.with(|c| *c.borrow_mut() = u.clone());
     let nq = p.nq;
     let ps = paths(&p.body);
